@@ -327,7 +327,34 @@ def directed():
         g.query(g.join(a, b, 'full', g.and_(eq, g.cmp('>', g.column('B', 'w'), g.lit(10)))),
                 select=(g.column('A', 'x'), g.column('B', 'w'))),
         g.query(g.join(a, b, 'inner', eq), select=(g.column('B', 'w'),), orderby=((g.column('A', 's'), 'asc'),)),
-    ]
+    ] + nested_outer_joins()
+
+
+def nested_outer_joins():
+    """Join conditions (and WHERE clauses) with a factor on every table of A <k1> (B <k2> C) / (B <k2> C) <k1> A: a table
+    null-padded by the nested outer join must not be filtered below it."""
+    from vlib import dslgen as g
+
+    a, b, c = g.table('A'), g.table('B'), g.table('C')
+    link = g.cmp('==', g.column('B', 'x'), g.column('C', 'k'))
+    factors = {
+        'A': [g.cmp('>', g.column('A', 'y'), g.lit(0)), g.isnull(g.column('A', 's'))],
+        'B': [g.isnull(g.column('B', 't')), g.cmp('>', g.column('B', 'w'), g.lit(10))],
+        'C': [g.isnull(g.column('C', 'b')), g.cmp('>', g.column('C', 'v'), g.lit(0.5, 'float'))],
+    }
+    select = (g.column('A', 'x'), g.column('B', 'w'), g.column('C', 'k'))
+    out = []
+    for k2 in ('left', 'right', 'full'):
+        nested = g.join(b, c, k2, link)
+        for k1 in ('inner', 'left', 'right', 'full'):
+            for table, options in factors.items():
+                for factor in options:
+                    condition = g.and_(g.cmp('!=', g.column('A', 'x'), g.column('C', 'k')), factor)
+                    out.append(g.query(g.join(a, nested, k1, condition), select=select))
+                    out.append(g.query(g.join(nested, a, k1, condition), select=select))
+            out.append(g.query(g.join(a, nested, k1, g.cmp('==', g.column('A', 'x'), g.column('B', 'x'))), select=select,
+                               where=factors['B'][0]))
+    return out
 
 
 def replay(ctx, witness):
